@@ -2,9 +2,6 @@ package nsqd
 
 import (
 	"fmt"
-	"os"
-	"sort"
-	"sync"
 	"testing"
 	"time"
 )
@@ -117,68 +114,4 @@ func TestVerifGuidCorr(t *testing.T) {
 		h := guid(g).Hex()
 		out.Case(fmt.Sprintf("hex %d", g), string(h[:]))
 	}
-}
-
-// TestVerifGuidOracle: the property itself on the implementation — concurrent publishers on one
-// real Topic; ids are globally distinct and each goroutine sees strictly increasing ids
-// (a consequence of "strictly increasing in generation order" that needs no instrumentation).
-func TestVerifGuidOracle(t *testing.T) {
-	opts := NewOptions()
-	opts.Logger = nil
-	opts.LogLevel = LOG_FATAL
-	opts.TCPAddress, opts.HTTPAddress, opts.HTTPSAddress = "127.0.0.1:0", "127.0.0.1:0", ""
-	opts.DataPath = t.TempDir()
-	opts.ID = int64(vfEnvInt("VERIF_NODEID", 1023))
-	nsqd, err := New(opts)
-	if err != nil {
-		t.Fatal(err)
-	}
-	defer nsqd.Exit()
-	topic := nsqd.GetTopic("vf_guid")
-	workers, per := 16, vfEnvInt("VERIF_N", 20000)
-	res := make([][]MessageID, workers)
-	var wg sync.WaitGroup
-	for w := 0; w < workers; w++ {
-		wg.Add(1)
-		go func(w int) {
-			defer wg.Done()
-			ids := make([]MessageID, 0, per)
-			for i := 0; i < per; i++ {
-				ids = append(ids, topic.GenerateID())
-			}
-			res[w] = ids
-		}(w)
-	}
-	wg.Wait()
-	fail := func(what string) {
-		fmt.Printf("ORACLE-FAIL %s\n", what)
-		if p := os.Getenv("VERIF_OUT"); p != "" {
-			os.WriteFile(p+"/oracle_fail.txt", []byte(what+"\n"), 0o644)
-		}
-		t.Fail()
-	}
-	all := make([]string, 0, workers*per)
-	for w := range res {
-		for i, id := range res[w] {
-			if i > 0 && string(res[w][i-1][:]) >= string(id[:]) {
-				fail(fmt.Sprintf("not increasing within publisher %d: %s then %s", w, res[w][i-1][:], id[:]))
-				return
-			}
-			for _, c := range id {
-				if !(c >= '0' && c <= '9' || c >= 'a' && c <= 'f') {
-					fail(fmt.Sprintf("id %q is not 16 lower-case hex characters", id[:]))
-					return
-				}
-			}
-			all = append(all, string(id[:]))
-		}
-	}
-	sort.Strings(all)
-	for i := 1; i < len(all); i++ {
-		if all[i] == all[i-1] {
-			fail("duplicate id " + all[i])
-			return
-		}
-	}
-	fmt.Printf("ORACLE-OK ids=%d distinct=%d\n", len(all), len(all))
 }
